@@ -97,7 +97,7 @@ package cache
 //@   requires [recv] hc != nil && hc.mu != nil
 //@   requires [locked] held(hc.mu)
 //@   requires [inv] inv(hc)
-//@   modifies hc.status, hc.chanList, hc.response, hc.createdAt, hc.expiredAt, $tok[hc], $clock, $regs, $owed, $expbase[hc]
+//@   modifies hc.status, hc.chanList, hc.response, hc.createdAt, hc.expiredAt, $tok[hc], $clock, $regs, $owed, $expbase[hc], $hdr
 //@   nopanic
 //@   ensures [owed]    $owed == old($owed)
 //@   ensures [inv-range]    invRange(hc)
@@ -133,7 +133,7 @@ package cache
 //@   requires [unlocked] !anyheld(hc.mu)
 //@   requires [tok] $tok[hc] == 0
 //@   nopanic
-//@   modifies hc.status, hc.chanList, hc.response, hc.createdAt, hc.expiredAt, $tok[hc], $clock, $regs, $recv, $recv_total, $owed, $expbase[hc], cells(chan struct{})
+//@   modifies hc.status, hc.chanList, hc.response, hc.createdAt, hc.expiredAt, $tok[hc], $clock, $regs, $recv, $recv_total, $owed, $expbase[hc], cells(chan struct{}), $hdr
 //@   ensures [recv]    $regs - old($regs) == $recv_total - old($recv_total)
 //@   ensures [owed]    $owed == old($owed)
 //@   ensures [domain]  status == StatusFetching || status == StatusHitForPass || status == StatusHit
@@ -149,8 +149,8 @@ package cache
 //@   requires [unlocked] !anyheld(hc.mu)
 //@   requires [tok] $tok[hc] == 0
 //@   nopanic
-//@   modifies hc.status, hc.chanList, hc.response, hc.createdAt, hc.expiredAt, $tok[hc], $clock, $regs, $recv, $recv_total, $owed, $expbase[hc], cells(chan struct{})
-//@   loop 0: modifies hc.status, hc.chanList, hc.response, hc.createdAt, hc.expiredAt, $tok[hc], $clock, $regs, $recv, $recv_total, $owed, $expbase[hc], cells(chan struct{})
+//@   modifies hc.status, hc.chanList, hc.response, hc.createdAt, hc.expiredAt, $tok[hc], $clock, $regs, $recv, $recv_total, $owed, $expbase[hc], cells(chan struct{}), $hdr
+//@   loop 0: modifies hc.status, hc.chanList, hc.response, hc.createdAt, hc.expiredAt, $tok[hc], $clock, $regs, $recv, $recv_total, $owed, $expbase[hc], cells(chan struct{}), $hdr
 //@   loop 0: invariant [locks] $held == old($held)
 //@   loop 0: invariant [dom]   status == StatusFetching || status == StatusHitForPass || status == StatusHit
 //@   loop 0: invariant [tok]   (done == nil && status == StatusFetching) ==> $tok[hc] == 1
@@ -178,7 +178,7 @@ package cache
 //@   requires [recv] hc != nil && hc.mu != nil
 //@   requires [locked] held(hc.mu)
 //@   requires [inv] inv(hc) && hc.status == StatusUnknown && $tok[hc] == 0
-//@   modifies hc.status, hc.response, hc.createdAt, hc.expiredAt, $tok[hc], $expbase[hc]
+//@   modifies hc.status, hc.response, hc.createdAt, hc.expiredAt, $tok[hc], $expbase[hc], $hdr
 //@   nopanic
 //@   ensures [inv-range]    invRange(hc)
 //@   ensures [inv-tok]      invTok(hc)
